@@ -1050,6 +1050,17 @@ where
                         result = result.append(open_brace_trivia.clone());
                     }
                     result = result.append(allocator.text("}"));
+                    // comments that follow the closing brace stay with it
+                    if let Some(idx) = find_preparsed_index(*token_index, ctx.preparsed) {
+                        for trivia in ctx.preparsed.get_trailing_trivia(idx, ctx.tokens) {
+                            if matches!(
+                                trivia.kind,
+                                TokenKind::SingleLineComment | TokenKind::MultiLineComment
+                            ) {
+                                result = result.append(emit_trivia(trivia, ctx.source, allocator));
+                            }
+                        }
+                    }
                     in_body = false;
                     continue;
                 }
